@@ -94,4 +94,9 @@ def srcLifetime (capped : Bool) (reqMs : Option Nat) (mibDefaultS : Nat) : LT :=
   | some ms => LT.setMillis capped ms
   | none => LT.setMillis capped (mibDefaultS * 1000)
 
+/-- remaining packet lifetime (whole seconds) a receiver reports upward for a packet whose LT octet is `b`:
+`remaining_packet_lifetime=float(basic_header.lt.get_value_in_seconds())` at the five indication sites of the Router
+(SHB, TSB, GBC, GAC, GUC) -/
+def indRemainingS (b : Nat) : Nat := (LT.decode b).seconds
+
 end FlexModel.Geo
